@@ -59,7 +59,7 @@ def floors(tier):
     cl.update({
         "run": 36 * k, "run:NONE": 1, "assertions:SIMPLE": 20 * k, "assertions:MUTATION_ANALYSIS": 3 * k, "assertions:NONE": 2 * k,
         "coverage-function:TestSuiteBranchCoverageFunction": 36 * k, "coverage-function:TestSuiteLineCoverageFunction": 8 * k,
-        "asserted-statement": 300 * k, "statement-after": 300 * k, "suite-with-removed-test": 1, "restore-path-taken": 1,
+        "asserted-statement": 300 * k, "statement-after": 300 * k, "suite-with-removed-test": 1,
         "directed:bare-unused": 8, "directed:dotted-only": 8, "directed:dependency": 8, "directed:unasserted": 8,
     })
     return {"evals": 1500 * k, "distinct": 36 * k, "classes": cl}
@@ -130,17 +130,24 @@ def loss_key(l):
     if step == "remove_unused_variables":
         return "asserted-statement-lost:remove_unused_variables"
     if step.startswith("iterative"):
-        if l.get("protected_at_entry"):
-            sub = "protected-statement-removed"
-        elif l.get("asserted_at_entry") == "dotted":
+        if l.get("asserted_at_entry") == "dotted" and l.get("real_protected_at_entry") is False:
             sub = "dotted-source-unprotected"
+        elif l.get("protected_at_entry"):
+            sub = "protected-statement-removed"
         elif l.get("asserted_at_entry") is None:
             sub = "assertions-stripped-earlier"
         else:
             sub = "unprotected-other"
         return f"asserted-statement-lost:{step}:{sub}"
     if step == "combined-visitor":
-        return "asserted-statement-lost:combined-ignores-protection"
+        if not l.get("protection_consulted"):
+            return "asserted-statement-lost:combined-ignores-protection"
+        # the visitor does consult get_assertion_protected_variables: what else removed a protected statement?
+        if l.get("protected_at_entry") and l.get("carrier_statements_removed"):
+            # the assertion on v was attached to ANOTHER statement; that statement was removed, the assertion went with it,
+            # and the protection set recomputed in the next pass no longer contains v
+            return "asserted-statement-lost:combined-visitor:assertion-carrier-removed"
+        return "asserted-statement-lost:combined-visitor:" + ("protected-statement-removed" if l.get("protected_at_entry") else "unprotected")
     if step == "suite-visitor":
         return "asserted-statement-lost:suite-visitor-removes-whole-test" if l.get("test_removed_from_suite") else "asserted-statement-lost:suite-visitor"
     return f"asserted-statement-lost:{step}"
